@@ -682,6 +682,20 @@ def m_ptr_read(ip, fr, c, t, args, st):
     return [(ip.fresh_of_ty(st, t["dest"]["ty"], "read"), st)]
 
 
+@model("std::ptr::write", "std::ptr::mut_ptr::<impl *mut T>::write", "std::ptr::write_unaligned",
+       "std::ptr::mut_ptr::<impl *mut T>::write_unaligned", "std::ptr::write_volatile")
+def m_ptr_write(ip, fr, c, t, args, st):
+    """*p = v without dropping the old value: a plain store as far as this model is concerned"""
+    p, v = args[0], args[1]
+    if p[0] == "ptr":
+        try:
+            oid, path = ip.resolve_ptr(st, p, for_write=True)
+            ip.write(st, oid, path, v)
+        except Unsupported:
+            pass
+    return [(("unit",), st)]
+
+
 @model("std::ptr::drop_in_place", "std::mem::MaybeUninit::assume_init_drop", "std::ptr::mut_ptr::<impl *mut T>::drop_in_place")
 def m_drop_in_place(ip, fr, c, t, args, st):
     info = {"kind": "drop", "callee": "drop_in_place", "in": fr.body.path, "loc": c.loc, "chain": fr.chain, "bb": c.bb}
